@@ -186,6 +186,8 @@ func (w *World) batch(ps []*packet.Packet) []any {
 	return out
 }
 
+var listenerGates = map[string]bool{"flush": true, "drain": true, "close": true, "upgrade": true, "upgrading": true, "message": true, "heartbeat": true}
+
 func (w *World) observeSocket(s engine.Socket) {
 	sid := s.Id()
 	ev := func(name string, f func(a []any) []any) {
@@ -197,6 +199,12 @@ func (w *World) observeSocket(s engine.Socket) {
 			w.rec.Log("sock."+name, kv...)
 			if h := w.hooks[name]; h != nil {
 				h(sid, a...)
+			}
+			// listener gate: the goroutine emitting this event can be parked INSIDE the listener, i.e. in the
+			// middle of the emitting function (flush: buffer taken, not yet handed over; close: state closed,
+			// registry updated, later listeners such as the upgrade candidate's not yet run)
+			if listenerGates[name] {
+				w.g.at("L."+name, sid)
 			}
 		})
 	}
